@@ -89,6 +89,200 @@ func subscribesAtom(p *Prog, info *types.Info, params []string) func(ast.Expr) (
 	}
 }
 
+// substAST replaces identifiers by expressions (copy on write: unchanged sub-trees keep their identity, so that
+// types.Info still knows their constant values).
+func substAST(e ast.Expr, env map[string]ast.Expr) ast.Expr {
+	if len(env) == 0 || e == nil {
+		return e
+	}
+	switch x := e.(type) {
+	case *ast.Ident:
+		if v, ok := env[x.Name]; ok {
+			return v
+		}
+		return x
+	case *ast.ParenExpr:
+		in := substAST(x.X, env)
+		if in == x.X {
+			return x
+		}
+		return &ast.ParenExpr{X: in}
+	case *ast.UnaryExpr:
+		in := substAST(x.X, env)
+		if in == x.X {
+			return x
+		}
+		return &ast.UnaryExpr{Op: x.Op, X: in, OpPos: x.OpPos}
+	case *ast.StarExpr:
+		in := substAST(x.X, env)
+		if in == x.X {
+			return x
+		}
+		return &ast.StarExpr{X: in, Star: x.Star}
+	case *ast.BinaryExpr:
+		l, r := substAST(x.X, env), substAST(x.Y, env)
+		if l == x.X && r == x.Y {
+			return x
+		}
+		return &ast.BinaryExpr{X: l, Op: x.Op, Y: r, OpPos: x.OpPos}
+	case *ast.SelectorExpr:
+		in := substAST(x.X, env)
+		if in == x.X {
+			return x
+		}
+		return &ast.SelectorExpr{X: in, Sel: x.Sel}
+	case *ast.CallExpr:
+		fun := substAST(x.Fun, env)
+		changed := fun != x.Fun
+		args := make([]ast.Expr, len(x.Args))
+		for i, a := range x.Args {
+			args[i] = substAST(a, env)
+			if args[i] != a {
+				changed = true
+			}
+		}
+		if !changed {
+			return x
+		}
+		return &ast.CallExpr{Fun: fun, Args: args, Lparen: x.Lparen, Rparen: x.Rparen}
+	}
+	return e
+}
+
+// funcToBool converts a boolean function whose body is an if-chain of returns (nested ifs, else branches, helper
+// calls to functions of the same shape in the same package) into one boolean expression over atoms.
+type boolConv struct {
+	p      *Prog
+	pkg    string
+	atomOf func(ast.Expr) (string, bool)
+	depth  int
+}
+
+func ite(c, t, e *boolExpr) *boolExpr {
+	return &boolExpr{op: "||", l: &boolExpr{op: "&&", l: c, r: t}, r: &boolExpr{op: "&&", l: &boolExpr{op: "!", l: c}, r: e}}
+}
+
+func (bc *boolConv) expr(e ast.Expr, env map[string]ast.Expr) (*boolExpr, error) {
+	e = substAST(e, env)
+	return bc.p.parseBool(e, nil, func(x ast.Expr) (string, bool) {
+		if a, ok := bc.atomOf(x); ok {
+			return a, true
+		}
+		return "", false
+	})
+}
+
+func (bc *boolConv) parse(e ast.Expr, env map[string]ast.Expr) (*boolExpr, error) {
+	e = unparen(substAST(e, env))
+	// helper call: f(args) with f a function of this package whose body converts
+	if ce, ok := e.(*ast.CallExpr); ok {
+		if id, ok := ce.Fun.(*ast.Ident); ok {
+			if fd := bc.p.FuncDecl(bc.pkg, "", id.Name); fd != nil && fd.Body != nil && bc.depth < 4 {
+				cenv := map[string]ast.Expr{}
+				i := 0
+				for _, f := range fd.Type.Params.List {
+					for _, n := range f.Names {
+						if i < len(ce.Args) {
+							cenv[n.Name] = ce.Args[i]
+						}
+						i++
+					}
+				}
+				bc.depth++
+				defer func() { bc.depth-- }()
+				return bc.stmts(fd.Body.List, cenv, nil)
+			}
+		}
+	}
+	switch x := e.(type) {
+	case *ast.UnaryExpr:
+		if x.Op == token.NOT {
+			in, err := bc.parse(x.X, nil)
+			if err != nil {
+				return nil, err
+			}
+			return &boolExpr{op: "!", l: in}, nil
+		}
+	case *ast.BinaryExpr:
+		if x.Op == token.LAND || x.Op == token.LOR {
+			l, err := bc.parse(x.X, nil)
+			if err != nil {
+				return nil, err
+			}
+			r, err := bc.parse(x.Y, nil)
+			if err != nil {
+				return nil, err
+			}
+			return &boolExpr{op: x.Op.String(), l: l, r: r}, nil
+		}
+	case *ast.Ident:
+		if x.Name == "true" || x.Name == "false" {
+			return &boolExpr{op: "const", val: x.Name == "true"}, nil
+		}
+	}
+	if a, ok := bc.atomOf(e); ok {
+		if strings.HasPrefix(a, "!") {
+			return &boolExpr{op: "!", l: &boolExpr{op: "atom", atom: a[1:]}}, nil
+		}
+		return &boolExpr{op: "atom", atom: a}, nil
+	}
+	return nil, fmt.Errorf("unrecognised boolean sub-expression %q", bc.p.src(e))
+}
+
+// stmts converts a statement list; k is the value of "what follows" (nil: falling off the end is an error).
+func (bc *boolConv) stmts(list []ast.Stmt, env map[string]ast.Expr, k *boolExpr) (*boolExpr, error) {
+	if len(list) == 0 {
+		if k == nil {
+			return nil, fmt.Errorf("a path falls off the end of the function")
+		}
+		return k, nil
+	}
+	switch s := list[0].(type) {
+	case *ast.ReturnStmt:
+		if len(s.Results) != 1 {
+			return nil, fmt.Errorf("return with %d results", len(s.Results))
+		}
+		return bc.parse(s.Results[0], env)
+	case *ast.IfStmt:
+		if s.Init != nil {
+			return nil, fmt.Errorf("if with init statement")
+		}
+		rest, errRest := bc.stmts(list[1:], env, k)
+		c, err := bc.parse(s.Cond, env)
+		if err != nil {
+			return nil, err
+		}
+		var restOrNil *boolExpr
+		if errRest == nil {
+			restOrNil = rest
+		}
+		t, err := bc.stmts(s.Body.List, env, restOrNil)
+		if err != nil {
+			return nil, err
+		}
+		var e *boolExpr
+		switch el := s.Else.(type) {
+		case nil:
+			if errRest != nil {
+				return nil, errRest
+			}
+			e = rest
+		case *ast.BlockStmt:
+			e, err = bc.stmts(el.List, env, restOrNil)
+			if err != nil {
+				return nil, err
+			}
+		case *ast.IfStmt:
+			e, err = bc.stmts([]ast.Stmt{el}, env, restOrNil)
+			if err != nil {
+				return nil, err
+			}
+		}
+		return ite(c, t, e), nil
+	}
+	return nil, fmt.Errorf("unsupported statement %T in a predicate", list[0])
+}
+
 func c12r2(p *Prog, r *Reporter) {
 	for _, pkg := range []string{"ecs", "listener"} {
 		fd := p.FuncDecl(pkg, "", "subscribes")
@@ -104,58 +298,11 @@ func c12r2(p *Prog, r *Reporter) {
 				params = append(params, n.Name)
 			}
 		}
-		rawAtom := subscribesAtom(p, info, params)
-		atomOf := func(e ast.Expr) (string, bool) {
-			a, ok := rawAtom(e)
-			if !ok {
-				return "", false
-			}
-			return a, true
-		}
-		// parse all conditions; "!x==nil" atoms are turned into negations of "x==nil"
-		fix := func(b *boolExpr) *boolExpr { return b }
-		var fixRec func(b *boolExpr) *boolExpr
-		fixRec = func(b *boolExpr) *boolExpr {
-			if b == nil {
-				return nil
-			}
-			if b.op == "atom" && strings.HasPrefix(b.atom, "!") {
-				return &boolExpr{op: "!", l: &boolExpr{op: "atom", atom: b.atom[1:]}}
-			}
-			b.l, b.r = fixRec(b.l), fixRec(b.r)
-			return b
-		}
-		_ = fix
-		var parseErr error
-		conds := map[ast.Expr]*boolExpr{}
-		ast.Inspect(fd.Body, func(n ast.Node) bool {
-			switch s := n.(type) {
-			case *ast.IfStmt:
-				be, err := p.parseBool(s.Cond, nil, atomOf)
-				if err != nil {
-					parseErr = err
-				} else {
-					conds[s.Cond] = fixRec(be)
-				}
-			case *ast.ReturnStmt:
-				if len(s.Results) == 1 {
-					be, err := p.parseBool(s.Results[0], nil, atomOf)
-					if err != nil {
-						parseErr = err
-					} else {
-						conds[s.Results[0]] = fixRec(be)
-					}
-				}
-			}
-			return true
-		})
-		if parseErr != nil {
-			r.Und(name, "truth table", p.Pos(fd.Pos()), "the predicate is not an if-chain over recognised atoms: "+parseErr.Error())
+		bc := &boolConv{p: p, pkg: pkg, atomOf: subscribesAtom(p, info, params)}
+		be, err := bc.stmts(fd.Body.List, nil, nil)
+		if err != nil {
+			r.Und(name, "truth table", p.Pos(fd.Pos()), "the predicate is not an if-chain over recognised atoms: "+err.Error())
 			continue
-		}
-		atomSet := map[string]bool{}
-		for _, be := range conds {
-			be.atoms(atomSet)
 		}
 		want := []string{
 			"trigger==0", "subs==nil",
@@ -168,7 +315,7 @@ func c12r2(p *Prog, r *Reporter) {
 			wantSet[a] = true
 		}
 		unknown := ""
-		for a := range atomSet {
+		for _, a := range sortedAtomList(be) {
 			if !wantSet[a] {
 				unknown = a
 			}
@@ -195,59 +342,11 @@ func c12r2(p *Prog, r *Reporter) {
 			}
 			return true
 		}
-		// interpret
-		var exec func(stmts []ast.Stmt, as map[string]bool) (bool, bool)
-		exec = func(stmts []ast.Stmt, as map[string]bool) (ret bool, returned bool) {
-			for _, st := range stmts {
-				switch s := st.(type) {
-				case *ast.IfStmt:
-					if conds[s.Cond].eval(as) {
-						if v, ok := exec(s.Body.List, as); ok {
-							return v, true
-						}
-					} else if s.Else != nil {
-						if blk, ok := s.Else.(*ast.BlockStmt); ok {
-							if v, ok := exec(blk.List, as); ok {
-								return v, true
-							}
-						}
-					}
-				case *ast.ReturnStmt:
-					return conds[s.Results[0]].eval(as), true
-				}
-			}
-			return false, false
-		}
-		rows, diff := 0, ""
-		n := len(want)
-		for m := 0; m < 1<<n && diff == ""; m++ {
-			as := map[string]bool{}
-			for i, a := range want {
-				as[a] = m&(1<<i) != 0
-			}
-			if !consistent(as) {
-				continue
-			}
-			rows++
-			got, ok := exec(fd.Body.List, as)
-			if !ok {
-				diff = "a path falls off the end of the function"
-				break
-			}
-			if got != spec(as) {
-				var parts []string
-				for _, a := range want {
-					if as[a] {
-						parts = append(parts, a)
-					}
-				}
-				diff = fmt.Sprintf("true atoms {%s} → code %v, documented rule %v", strings.Join(parts, ", "), got, spec(as))
-			}
-		}
+		diff, rows := truthTable(be, want, spec, consistent)
 		if diff != "" {
-			r.Bad(name, "truth table", p.Pos(fd.Pos()), diff)
+			r.Bad(name, "truth table", p.Pos(fd.Pos()), "differs from the documented rule at "+diff)
 		} else {
-			r.OK(name, "truth table", p.Pos(fd.Pos()), fmt.Sprintf("equals the documented rule on all %d consistent rows of %d atoms (event masks 48, 5, 10 evaluated from the event constants)", rows, n))
+			r.OK(name, "truth table", p.Pos(fd.Pos()), fmt.Sprintf("equals the documented rule on all %d consistent rows of %d atoms (event masks 48, 5, 10 evaluated from the event constants)", rows, len(want)))
 		}
 	}
 }
@@ -474,62 +573,132 @@ func c12r1func(p *Prog, r *Reporter, pkg string, pk *packages.Package, fd *ast.F
 // ---------- R4 ----------
 
 func c12r4(p *Prog, r *Reporter) {
-	for _, n := range []string{"NewDispatch", "AddListener"} {
-		recv := ""
-		if n == "AddListener" {
-			recv = "Dispatch"
-		}
-		fd := p.FuncDecl("listener", recv, n)
-		name := "listener." + n
-		if fd == nil {
-			r.Anchor(name)
+	for _, n := range []string{"listener.NewDispatch", "listener.(*Dispatch).AddListener"} {
+		fn := p.Fn(n)
+		if fn == nil {
+			r.Anchor(n)
 			continue
 		}
-		s := strings.ReplaceAll(p.src(fd.Body), " ", "")
-		ev := strings.Contains(s, "events|=") && strings.Contains(s, ".Subscriptions()")
-		// if cmp == nil { hasComponents = false } else { components = components.Or(cmp) }
-		var nilBranch, orBranch bool
-		ast.Inspect(fd.Body, func(nd ast.Node) bool {
-			ifs, ok := nd.(*ast.IfStmt)
-			if !ok {
-				return true
-			}
-			c := strings.ReplaceAll(p.src(ifs.Cond), " ", "")
-			if !strings.HasSuffix(c, "==nil") {
-				return true
-			}
-			v := strings.TrimSuffix(c, "==nil")
-			th := strings.ReplaceAll(p.src(ifs.Body), " ", "")
-			if strings.Contains(th, "hasComponents=false") {
-				nilBranch = true
-			}
-			if ifs.Else != nil {
-				el := strings.ReplaceAll(p.src(ifs.Else), " ", "")
-				if strings.Contains(el, "components=") && strings.Contains(el, "components.Or("+v+")") {
-					orBranch = true
+		name := n
+		var evOK, nilOK, orOK bool
+		for _, b := range fn.Blocks {
+			for _, ins := range b.Instrs {
+				if bo, ok := ins.(*ssa.BinOp); ok && bo.Op == token.OR {
+					for _, op := range []ssa.Value{bo.X, bo.Y} {
+						if c := callOf(op); c != nil && c.Common().IsInvoke() && c.Common().Method.Name() == "Subscriptions" {
+							evOK = true
+						}
+					}
 				}
 			}
-			return true
-		})
-		r.Check(ev, name, "aggregates event types", p.Pos(fd.Pos()), "events |= sub.Subscriptions()")
-		r.Check(nilBranch, name, "unrestricted sub-listener lifts the restriction", p.Pos(fd.Pos()), "if Components() == nil { hasComponents = false }")
-		r.Check(orBranch, name, "aggregates components", p.Pos(fd.Pos()), "else { components = components.Or(c) }")
+			atom, trueSucc, isIf := ifCond(b)
+			if !isIf {
+				continue
+			}
+			bo, ok := atom.(*ssa.BinOp)
+			if !ok || (bo.Op != token.EQL && bo.Op != token.NEQ) || !isNilConst(bo.Y) {
+				continue
+			}
+			cmp := callOf(bo.X)
+			if cmp == nil || !cmp.Common().IsInvoke() || cmp.Common().Method.Name() != "Components" {
+				continue
+			}
+			nilSucc, nonNilSucc := b.Succs[trueSucc], b.Succs[1-trueSucc]
+			if bo.Op == token.NEQ {
+				nilSucc, nonNilSucc = nonNilSucc, nilSucc
+			}
+			// non-nil side: Mask.Or(..., cmp)
+			for _, i2 := range nonNilSucc.Instrs {
+				if c2, ok := i2.(*ssa.Call); ok && c2.Common().StaticCallee() != nil && c2.Common().StaticCallee().Name() == "Or" {
+					for _, a := range c2.Common().Args {
+						if a == ssa.Value(cmp) {
+							orOK = true
+						}
+					}
+				}
+			}
+			// nil side: hasComponents = false (field store, or phi edge of the local variable)
+			for _, i2 := range nilSucc.Instrs {
+				if st, ok := i2.(*ssa.Store); ok {
+					if _, f, _, ok := loadedField(st.Addr); ok && f == "hasComponents" {
+						if cb, isC := constBool(st.Val); isC && !cb {
+							nilOK = true
+						}
+					}
+				}
+			}
+			for _, bb := range fn.Blocks {
+				for _, i2 := range bb.Instrs {
+					ph, ok := i2.(*ssa.Phi)
+					if !ok || ph.Comment != "hasComponents" {
+						continue
+					}
+					for ei, e := range ph.Edges {
+						if cb, isC := constBool(e); isC && !cb {
+							from := bb.Preds[ei]
+							if from == nilSucc || from == b && nilSucc == bb {
+								nilOK = true
+							}
+						}
+					}
+				}
+			}
+		}
+		r.Check(evOK, name, "aggregates event types", p.FnPos(fn), "events |= sub.Subscriptions()")
+		r.Check(nilOK, name, "unrestricted sub-listener lifts the restriction", p.FnPos(fn), "on the edge where Components() is nil, hasComponents becomes false")
+		r.Check(orOK, name, "aggregates components", p.FnPos(fn), "on the edge where Components() is non-nil, components = components.Or(c)")
 	}
 	for _, tn := range []string{"Dispatch", "Callback"} {
-		fd := p.FuncDecl("listener", tn, "Components")
-		name := "listener.(" + tn + ").Components"
-		if fd == nil {
+		fn := p.Fn("listener.(*" + tn + ").Components")
+		name := "listener.(*" + tn + ").Components"
+		if fn == nil {
 			r.Anchor(name)
 			continue
 		}
-		s := strings.ReplaceAll(p.src(fd.Body), " ", "")
-		rn := recvName(fd)
-		okc := strings.Contains(s, "if"+rn+".hasComponents{return&"+rn+".components}") && strings.HasSuffix(s, "returnnil}")
-		r.Check(okc, name, "nil iff unrestricted", p.Pos(fd.Pos()), "returns &components when hasComponents, else nil")
-		fs := p.FuncDecl("listener", tn, "Subscriptions")
+		flagEdge := func(want bool) func(b *ssa.BasicBlock, k int) bool {
+			return func(b *ssa.BasicBlock, k int) bool {
+				atom, holds, ok := edgeCond(b, k)
+				if !ok {
+					return false
+				}
+				_, f, _, okf := loadedField(atom)
+				return okf && f == "hasComponents" && holds == want
+			}
+		}
+		on := &MustFlow{Fn: fn, EdgeGen: flagEdge(true)}
+		on.Run()
+		off := &MustFlow{Fn: fn, EdgeGen: flagEdge(false)}
+		off.Run()
+		okc, n := true, 0
+		for _, b := range fn.Blocks {
+			ret, isR := b.Instrs[len(b.Instrs)-1].(*ssa.Return)
+			if !isR || !reachable(b) {
+				continue
+			}
+			n++
+			if isNilConst(ret.Results[0]) {
+				if !off.Before(ret) {
+					okc = false
+				}
+			} else {
+				_, f, _, okf := loadedField(ret.Results[0])
+				if !(okf && f == "components") || !on.Before(ret) {
+					okc = false
+				}
+			}
+		}
+		r.Check(okc && n >= 2, name, "nil iff unrestricted", p.FnPos(fn), "returns &components exactly where hasComponents is true, nil exactly where it is false")
+		fs := p.Fn("listener.(*" + tn + ").Subscriptions")
 		if fs != nil {
-			s2 := strings.ReplaceAll(p.src(fs.Body), " ", "")
-			r.Check(s2 == "{return"+recvName(fs)+".events}", "listener.("+tn+").Subscriptions", "returns the stored event mask", p.Pos(fs.Pos()), s2)
+			oks := false
+			for _, b := range fs.Blocks {
+				if ret, isR := b.Instrs[len(b.Instrs)-1].(*ssa.Return); isR {
+					if _, f, _, okf := loadedField(ret.Results[0]); okf && f == "events" {
+						oks = true
+					}
+				}
+			}
+			r.Check(oks, "listener.(*"+tn+").Subscriptions", "returns the stored event mask", p.FnPos(fs), "returns the events field")
 		}
 	}
 	// NewCallback: hasComponents: len(components) > 0
